@@ -12,6 +12,7 @@ def c04Op (args : List String) : String :=
     if b == "PERSIST" then "specfail " ++ kind ++ " law=assign-and-capture-bind-for-the-rest-of-the-render"
     else if b == "SCOPED" then "specfail " ++ kind ++ " law=loop-variable-and-argument-visible-only-inside"
     else if b == "SHADOW" then "specfail " ++ kind ++ " law=a-rebound-name-hides-the-callers-datum-and-its-sub-paths"
+    else if b == "UNBOUND" then "specfail " ++ kind ++ " law=a-name-nobody-binds-does-not-exist"
     else if b == "CAPTURE" then "specfail " ++ kind ++ " law=capture-binds-exactly-the-body-text"
     else renderOp baseFilters args
   | _ => renderOp baseFilters args
